@@ -20,6 +20,8 @@ func init() {
 		prepare:        prepareDet,
 		quickBudget:    75 * time.Second,
 		thoroughBudget: 1500 * time.Second,
+		watchdog:       300 * time.Second, // a history holds up to 5 generations, twice each; js alone takes many seconds under load
+		sequentialSUT:  true,
 		realVsStub: map[string]string{
 			"compiler.Compile, lalr, lex, syntax, grammar, gen.Generate, templates, FormatGo, import extraction": "real code (map range expressions and time.Now/Since rewritten to go through zzsim in an overlay copy)",
 			"gen.Writer":               "stub: recording writer (sequence of (filename, sha256(content)))",
